@@ -37,6 +37,14 @@ def unit(uid, prop, functions, **kw):
     return deco
 
 
+def reuse(src_uid, uid, prop):
+    """registers the harness of an existing unit again under another property: the other property's statement depends on the same contract,
+    so a change that breaks the contract must be reported by that property's check as well"""
+    u = UNITS[src_uid]
+    UNITS[uid] = Unit(uid, prop, u.fn, u.functions, float_mode=u.float_mode, assumptions=list(u.assumptions) + [f"same harness as {src_uid}"], summaries=u.summaries,
+                      doc=u.doc, max_paths=u.max_paths)
+
+
 def function_info(keys):
     out = []
     ip = Interp(core.Ctx(Explorer(), []))
@@ -63,6 +71,11 @@ def run_unit(uid, timeout_ms=10000):
     used_models, used_summaries, inlined, dropped, notes = set(), set(), set(), [], set()
 
     def one_path(ctx):
+        # module-level and class-level values of the repository (incl. MUTABLE ones: a dict used as a class-wide cache) start fresh on every path,
+        # as in a fresh interpreter process - nothing leaks from another path or unit
+        from .interp import _MODULES
+        for m_ in _MODULES.values():
+            m_.cache.clear()
         ip = Interp(ctx)
         try:
             u.fn(ip)
